@@ -10,7 +10,7 @@ REQ_S = ["Verif.lib.PyLite", "Verif.gen.SendGen", "Verif.lib.Send"]
 MSGS = [["ascii", 0], ["ascii", 5], ["ascii", 999], ["ascii", 1000], ["ascii", 1001], ["ascii", 5000], ["latin", 1000],
         ["latin", 499], ["latin", 500], ["latin", 501], ["cjk", 400], ["astral", 300], ["astral", 249], ["astral", 250],
         ["mixed", 700], ["asciithen", 301], ["asciithen", 302], ["asciithen", 303], ["nul", 10], ["surrogate", 1],
-        ["surrogate", 120]]
+        ["surrogate", 120], ["vocab", 14], ["vocab", 4], ["vocab", 0], ["vocab", 11], ["vocab+", 14], ["vocab", 7]]
 CLASSES = ["ValueError", "KeyError", "MyError", "MyDeepError", "CafeError", "LongNameError", "OSError"]
 
 
@@ -36,6 +36,10 @@ def catalogue():
     cat.append(dict(kind="unknown-method-typed", nested=True))
     for d in (0, 1, 3):
         cat.append(dict(kind="result-unsendable", depth=d))
+    # targets WITH a RemoteInterface (known / unknown to the caller) that raise; messages are vocabulary words
+    for i in (14, 3, 18):
+        cat.append(dict(kind="typed-raise", i=i, known=True))
+        cat.append(dict(kind="typed-raise", i=i, known=False))
     # foolscap's own exception classes raised by the callee's application code, directly and relayed through a middle party
     for i, c in enumerate(OWN_NAMES):
         cat.append(dict(kind="raise", cls=c, msg=MSGS[(2 * i + 1) % len(MSGS)]))
@@ -120,7 +124,11 @@ def run(ctx):
                 "batches; foolscap's own exception classes (RemoteException, Violation, BananaError, DeadReferenceError, "
                 "NegotiationError) raised by the callee and relayed A->B->C through a middle party that exposes or hides types; "
                 "third-party references (gifts) the callee's Tub refuses or cannot resolve, at depth 0/1/3 and every position; "
-                "every batch is followed by calls whose arguments share containers), both settings of "
+                "every batch is followed by calls whose arguments share containers; targets with a RemoteInterface known / unknown "
+                "to the caller; strings that are exactly words of the negotiated vocabulary table as exception messages, "
+                "arguments, dict keys, method and keyword names), every batch under one of 17 settings of the four Tub logging "
+                "options (logLocalFailures / logRemoteFailures on caller and callee, or no Tub) and with / without the "
+                "negotiated vocabulary table, both settings of "
                 "unsafeTracebacks and expose-remote-exception-types; non-trivial = distinct batch in which every Deferred "
                 "fired and the faulty call really failed (or, for mixed keys, really round-tripped)")
     ctx.assumptions = [
@@ -246,6 +254,9 @@ def judge_faulty(impl, spec, d, opts):
         return None if d["type"] in ("builtins.AttributeError", "builtins.NameError") else "unknown method reported as %s" % d["type"]
     if k == "wrong-arity":
         return None if d["type"] == "builtins.TypeError" else "wrong arity reported as %s" % d["type"]
+    if k == "typed-raise":
+        spec = dict(spec, cls="MyError", msg=["vocab", spec["i"]])
+        k = "raise"
     if k in ("raise", "raise-noargs", "relay"):
         cls = impl.EXC_CLASSES[spec["cls"]]
         if d["type"] == "foolscap.tokens.Violation" and qual(cls) != "foolscap.tokens.Violation":
@@ -276,6 +287,8 @@ def short(d):
     if d is None:
         return None
     out = {k: v for k, v in d.items() if k not in ("failure", "traceback")}
+    if not isinstance(out.get("value"), (int, float, str, type(None))):
+        out["value"] = repr(out["value"])[:200]       # (bytes keys etc. are not JSON)
     if isinstance(out.get("value"), str) and len(out["value"]) > 120:
         out["value"] = out["value"][:60] + "...(%d chars)" % len(out["value"])
     if "parents" in out:
@@ -303,6 +316,11 @@ def judge_batch(ctx, impl, specs, opts, r, sigsuffix=""):
             want = s["v"] if s["kind"] == "ok" else s["v"] + 1
             if d is None or not d["ok"] or d["value"] != want:
                 bad.append(("oracle/sibling-affected", "fault-free call %d (expects %r) got %r" % (i, want, short(d))))
+        elif s["kind"] in ("ok-vocab", "vocab-method", "typed-ok"):
+            want = (impl.vocab_value(s) if s["kind"] == "ok-vocab" else 3 if s["kind"] == "typed-ok" else
+                    [s["i"], [(impl.message(["vocab", s["i"]]).replace("-", "_"), 1)]])
+            if d is None or not d["ok"] or d["value"] != want:
+                bad.append(("oracle/sibling-affected", "fault-free call %d (%s, expects %r) got %r" % (i, s["kind"], want, short(d))))
         elif s["kind"] == "shared":
             if d is None or not d["ok"] or not impl.shared_ok(s["variant"], d["value"]):
                 bad.append(("oracle/later-call-affected", "fault-free call %d whose argument %r contains the same container more than "
@@ -319,7 +337,8 @@ def judge_batch(ctx, impl, specs, opts, r, sigsuffix=""):
         bad.append(("oracle/later-call-affected", "a later call on the same connection, whose argument %r contains the same containers "
                     "more than once, was not delivered intact (value and sharing): got %r"
                     % (impl.shared_value(opts.get("later_shared", "mixed")), short(lt[1]))))
-    runs = {"ok": "echo", "ok-add": "add", "shared": "echo", "mixed-keys": "echo", "raise": "boom", "raise-noargs": "boom_noargs",
+    runs = {"ok": "echo", "ok-add": "add", "shared": "echo", "ok-vocab": "echo", "vocab-method": "call", "typed-ok": "ints",
+            "typed-raise": "tboom", "mixed-keys": "echo", "raise": "boom", "raise-noargs": "boom_noargs",
             "result-violates-callee": "wrongresult", "result-violates-caller": "text", "result-unsendable": "unsendable_result"}
     want_exec = []
     for s in specs:
@@ -356,11 +375,11 @@ def run_one(ctx, impl, specs, opts, tag, sigsuffix=""):
     with impl.quiet():
         r = impl.run_batch(specs, opts)
     fine = judge_batch(ctx, impl, specs, opts, r, sigsuffix)
-    nontrivial = all(r["fired"]) and all((d is not None and (not d["ok"] or s["kind"] in ("ok", "ok-add", "shared", "mixed-keys", "multi")))
+    nontrivial = all(r["fired"]) and all((d is not None and (not d["ok"] or s["kind"] in ("ok", "ok-add", "shared", "mixed-keys", "multi", "ok-vocab", "vocab-method", "typed-ok")))
                                          for s, d in zip(specs, r["results"]))
     ctx.case([tag, specs, opts], nontrivial=nontrivial and fine)
     for s, d in zip(specs, r["results"]):
-        if s["kind"] not in ("ok", "ok-add", "shared"):
+        if s["kind"] not in ("ok", "ok-add", "shared", "ok-vocab", "vocab-method", "typed-ok"):
             ctx.hist("fault_kind", s["kind"])
             ctx.hist("faulty_outcome", "not-fired" if d is None else "ok" if d["ok"] else
                      ("wrapped " if d["wrapped"] else "") + ("remote " if d["copied"] else "local ") +
@@ -399,6 +418,17 @@ def plumbing(ctx, impl):
         ctx.case(["plumbing", val])
 
 
+LOGS = [None] + [tuple(bool(n >> k & 1) for k in range(4)) for n in range(16)]     # no Tubs at all / the 16 settings
+
+
+def dims(n):
+    """the two extra dimensions of every batch, rotated: the four Tub logging options (caller logLocalFailures,
+    caller logRemoteFailures, callee logLocalFailures, callee logRemoteFailures; None = Brokers without a Tub, as in the
+    unit tests) and the negotiated vocabulary table (1, as on every real connection / none)"""
+    lg = LOGS[(5 * n + 3) % 17]
+    return dict(logs=list(lg) if lg is not None else None, vocab=1 if n % 3 != 1 else None)
+
+
 def sweep(ctx, impl):
     cat = catalogue()
     kept = []
@@ -414,14 +444,18 @@ def sweep(ctx, impl):
                 specs[pos] = f
                 # after every per-call fault: calls whose arguments share a container, in the same batch and later
                 specs.append(dict(kind="shared", variant=impl.SHARED_VARIANTS[(ci + pos) % 4]))
-                opts = dict(opts, later_shared=impl.SHARED_VARIANTS[(ci + pos + 1 + oi) % 4], middle_expose=bool((ci + pos) % 2))
+                opts = dict(opts, later_shared=impl.SHARED_VARIANTS[(ci + pos + 1 + oi) % 4], middle_expose=bool((ci + pos) % 2),
+                            **dims(3 * ci + pos + 7 * oi))
+                if pos == 1:        # fault-free neighbours that are vocabulary words / use the typed target
+                    specs[0] = dict(kind="ok-vocab", i=ci, **{"as": ("bytes", "str", "key", "list")[ci % 4]})
+                    specs[2] = dict(kind="vocab-method", i=ci + 5) if ci % 2 else dict(kind="typed-ok")
                 r = run_one(ctx, impl, specs, opts, "sweep")
                 kept.append((specs, opts, r))
                 n += 1
     # several faults in one call
     mc = multi_catalogue(ctx.tier == "thorough")
     for mi, f in enumerate(mc):
-        opts = dict(allopts[mi % 4], later_shared=impl.SHARED_VARIANTS[mi % 4])
+        opts = dict(allopts[mi % 4], later_shared=impl.SHARED_VARIANTS[mi % 4], **dims(mi))
         specs = [dict(kind="ok", v=300 + mi), f, dict(kind="ok-add", v=mi), dict(kind="shared", variant=impl.SHARED_VARIANTS[(mi + 1) % 4])]
         if mi % 3 == 1:
             specs = [specs[1], specs[0]] + specs[2:]
@@ -442,7 +476,7 @@ def sweep(ctx, impl):
                 if a == b:
                     continue
                 hi += 1
-                opts = dict(allopts[hi % 4], later_shared="twice")
+                opts = dict(allopts[hi % 4], later_shared="twice", **dims(hi))
                 m1, m2 = MSGS[hi % len(MSGS)], MSGS[(hi + 5) % len(MSGS)]
                 for specs in ([dict(kind="raise", cls=a, msg=m1), dict(kind="ok", v=hi), dict(kind="raise", cls=b, msg=m2)],
                               [dict(kind="raise", cls=b, msg=m1)], [dict(kind="raise", cls=a, msg=m2), dict(kind="raise", cls=a, msg=m1)]):
@@ -461,10 +495,11 @@ def sweep(ctx, impl):
                 specs.append(dict(kind="ok", v=ctx.rng.randrange(-5, 10 ** 6)) if u < 0.35 else
                              dict(kind="ok-add", v=ctx.rng.randrange(0, 2 ** 40)) if u < 0.7 else
                              dict(kind="shared", variant=ctx.rng.choice(impl.SHARED_VARIANTS)))
-        opts = dict(ctx.rng.choice(allopts), later_shared=ctx.rng.choice(impl.SHARED_VARIANTS), middle_expose=ctx.rng.random() < 0.5)
+        opts = dict(ctx.rng.choice(allopts), later_shared=ctx.rng.choice(impl.SHARED_VARIANTS), middle_expose=ctx.rng.random() < 0.5,
+                    **dims(ctx.rng.randrange(51)))
         r = run_one(ctx, impl, specs, opts, "random")
         kept.append((specs, opts, r))
-        ctx.hist("faults_per_batch", sum(1 for s in specs if s["kind"] not in ("ok", "ok-add", "shared")
+        ctx.hist("faults_per_batch", sum(1 for s in specs if s["kind"] not in ("ok", "ok-add", "shared", "ok-vocab", "vocab-method", "typed-ok")
                                          and not (s["kind"] == "multi" and isinstance(multi_expect(s), tuple))))
     ctx.sample(dict(kind="random", specs=kept[-1][0], opts=kept[-1][1], observed=[short(x) for x in kept[-1][2]["results"]]))
     ctx.extra["batches"] = len(kept)
@@ -546,6 +581,14 @@ def call_tree(impl, spec):
             args, kw = [a[0], a[1]], {"c": a[2]}
         else:
             args, kw = [a[0]], {"b": a[1], "c": a[2]}
+    elif k == "ok-vocab":
+        args = [impl.vocab_value(spec)]
+    elif k == "vocab-method":
+        args, kw = [], {"x": spec["i"], impl.message(["vocab", spec["i"]]).replace("-", "_"): 1}
+    elif k == "typed-ok":
+        args = [[1, 2, 3]]
+    elif k == "typed-raise":
+        args = [spec["i"]]
     elif k == "relay":
         args = [spec["cls"], spec["msg"][0], spec["msg"][1]]
     elif k == "gift":
